@@ -139,6 +139,17 @@ def build(n):
 def build2(n):
     return (part(n + 10), total([part(n + 10), part(n + 11)]))
 
+# a function that lives in an imported module (it survives reloads of the jugfile in the same interpreter): used through TaskGenerator and handed to map as it is
+from histlib import libf, libg
+tlibf = TaskGenerator(libf)
+x1 = tlibf(3)
+ml = jmap(libf, list(range(6)), map_step=2)
+tlibg = TaskGenerator(libg)
+ml2 = jmap(tlibg, list(range(4)), map_step=3)
+x2 = tlibg(4)
+sl = total(ml[1:4])
+sl2 = total(ml2)
+sl3 = total(ml2[1:3])
 c1 = CompoundTask(build, 3)
 c2 = CompoundTask(build, 4)
 c3 = CompoundTask(build2, 2)
@@ -148,11 +159,12 @@ m = jmap(dbl, list(range(5)), map_step=2)
 s = m[1:4]
 k = total(s)
 j = total([c3[1], e])
-TOP = ['c1', 'c2', 'c3', 'd', 'e', 'k', 'j']
+TOP = ['c1', 'c2', 'c3', 'd', 'e', 'k', 'j', 'x1', 'x2', 'sl', 'sl2', 'sl3']
 '''
 
 HIST_SCRIPT = '''
-import json, sys
+import json, sys, os
+sys.path.insert(0, os.path.dirname(os.path.abspath(sys.argv[1])))
 import jug, jug.task
 from jug.hash import hash_one
 from jug.backends.file_store import file_store
@@ -182,6 +194,8 @@ if sys.argv[3] == 'execute':
     stages['after execute (same objects)'] = ids(space)
     store, space = load()
     stages['loaded again after execute'] = ids(space)
+    store, space = load()
+    stages['loaded a third time in the same interpreter'] = ids(space)
 print('STAGES ' + json.dumps(stages))
 '''
 
@@ -191,6 +205,7 @@ def history_family(run):
     try:
         jf = os.path.join(d, 'histjf.py')
         open(jf, 'w').write(HIST_JUGFILE)
+        open(os.path.join(d, 'histlib.py'), 'w').write('def libf(x):\n    return x + 100\n\n\ndef libg(x):\n    return x * 7\n')
         jugdir = os.path.join(d, 'store')
         core.CURRENT_INPUT.clear()
         core.CURRENT_INPUT.update({'family': 'identifiers of top-level names before execute, after it, after reloading - in one interpreter and in fresh ones', 'jugfile': HIST_JUGFILE})
